@@ -226,6 +226,7 @@ class Analysis:
         self.stack = []
         self.ruler_model = self._ruler_model()
         self.ds_paths = {}
+        self.lambdas = {}
         self.stats = {"calls_cloned": 0}
         self._seed(pins)
 
@@ -318,7 +319,7 @@ class Analysis:
         return "%s:%d" % (os.path.relpath(fn["file"], REPO), n.get("line", fn["line"]) if isinstance(n, dict) else fn["line"])
 
     def chain(self):
-        return " <- ".join("%s@%s" % (f["qname"].replace("vfps::", ""), cs) for f, _, cs in reversed(self.stack) if cs) or ""
+        return " <- ".join("%s@%s" % (f["qname"].replace("vfps::", ""), cs) for f, _, cs in reversed(self.stack) if cs and not isinstance(cs, tuple)) or ""
 
     def eq(self, a, b, n, what):
         if a is None or b is None:
@@ -549,7 +550,7 @@ class Analysis:
 
         def is_ptr(x):
             t = (A.strip(x, casts=False).get("ctype") or x.get("ctype") or "")
-            return t.rstrip().endswith("*") or "iterator" in t or t.rstrip().endswith("]")
+            return bool(re.search(r"\*\s*(const|volatile|__restrict)?\s*$", t)) or "iterator" in t or t.rstrip().endswith("]")
         if op in ("+", "-", "+=", "-=") and (is_ptr(l) != is_ptr(r)):
             # pointer / iterator arithmetic: the offset is a pure number, the result addresses the same elements
             p_, i_ = (a, b) if is_ptr(l) else (b, a)
@@ -763,6 +764,40 @@ class Analysis:
             if op in ("*", "->") and len(args) == 1:
                 return self.ev(args[0], frame)
             if op == "()":
+                d_ = A.declref(args[0]) if args else None
+                lam = self.lambdas.get(self.key_of_decl(d_, frame)) if d_ is not None else None
+                if lam is not None and len(self.stack) < self.MAX_DEPTH and not any(cs == ("lambda", lam["id"]) for _, _, cs in self.stack):
+                    # a local lambda is expanded at the call: parameters are bound per call, captured names are the enclosing frame's
+                    for p_, a_ in zip(lam.get("params", []), args[1:]):
+                        pk = kind_of(p_["ctype"])
+                        pkey = ("L", frame, p_["decl"])
+                        v_ = self.evp(a_, frame)
+                        self.env.pop(pkey, None)
+                        self.strs.pop(pkey, None)
+                        if pk in ("num", "ruler") and isinstance(v_, (Lin, RV)):
+                            self.env[pkey] = v_
+                        elif pk == "str" or "char" in (p_["ctype"] or ""):
+                            sv = self.string_of(a_, frame)
+                            if sv is not None:
+                                self.strs[pkey] = sv
+                        elif "DatasetInfo" in (p_["ctype"] or ""):
+                            dsn = self.dataset_of(a_, frame, holder=True)
+                            if dsn:
+                                self.strs[pkey] = dsn
+                        elif "H5::DataSet" in (p_["ctype"] or ""):
+                            dsn = self.dataset_of(a_, frame)
+                            if dsn:
+                                self.strs[pkey] = "ds:" + dsn
+                    self.env.pop(("R", frame + (("lambda", lam["id"]),)), None)
+                    fn0 = self.stack[-1][0]
+                    self.stack.append((fn0, frame, ("lambda", lam["id"])))
+                    try:
+                        self.lambda_ret = ("R", frame + (("lambda", lam["id"]),))
+                        self.stmt(lam.get("body"), frame, {"name": "lambda", "qname": fn0["qname"], "file": fn0["file"], "line": lam["line"], "sig": "lambda"})
+                    finally:
+                        self.stack.pop()
+                        self.lambda_ret = None
+                    return self.env.get(("R", frame + (("lambda", lam["id"]),)))
                 for a in args:
                     self.ev(a, frame)
                 return self.S.fresh("functor") if kind == "num" else None
@@ -933,6 +968,9 @@ class Analysis:
                     return "group:" + p
         d = A.declref(n)
         if d is not None:
+            bound = self.strs.get(self.key_of_decl(d, frame))
+            if bound and bound.startswith("ds:"):
+                return bound[3:]
             return "local:" + d["name"]
         return None
 
@@ -1050,6 +1088,13 @@ class Analysis:
                 dk = kind_of(d.get("ctype"))
                 key = ("L", frame, d["decl"])
                 if isinstance(d.get("init"), dict):
+                    lam = A.strip(d["init"], casts=False)
+                    while lam.get("k") in ("CXXConstructExpr", "CXXTemporaryObjectExpr", "MaterializeTemporaryExpr", "ExprWithCleanups", "CXXBindTemporaryExpr") and \
+                            len(lam.get("args") or lam.get("c") or []) == 1:
+                        lam = A.strip((lam.get("args") or lam.get("c"))[0], casts=False)
+                    if lam.get("k") == "LambdaExpr":
+                        self.lambdas[key] = lam
+                        continue
                     if dk == "map":
                         self.env[("M",) + key] = self.scale_map(d["init"], frame)
                         continue
@@ -1068,7 +1113,7 @@ class Analysis:
             if s.get("c"):
                 v = self.evp(s["c"][0], frame)
                 if isinstance(v, (Lin, RV)):
-                    rk = ("R", frame)
+                    rk = getattr(self, "lambda_ret", None) or ("R", frame)
                     if rk in self.env:
                         self.eq(self.env[rk], v, s, "all return statements of %s give one dimension" % fn["name"])
                     else:
